@@ -1,6 +1,6 @@
 PROPS["C06"] = dict(
     harnesses=[dict(name="C06", procs_quick=2, procs_thorough=16)],
-    gens=["gen_tmseries", "gen_math"],
+    gens=["gen_tmseries", "gen_math", "gen_auxseries"],
     rule=("ellipsoids f ∈ {WGS84, 1/150, 0.01, −0.01 (series only), 0.1 (exact only)}, k0 ∈ {1, 0.9996, 10}, lon0 ∈ {0, 7, −123.5, 179, −180, 540, 360·k + …}; "
           "|lon − lon0| ∈ {0, 1e-10, 3, 35, 60, 89, 90, 90 ± 1e-10, 179, 180} and uniform in [0,35], [35,90], [90,180]; lat ∈ {±0, ±1e-10, ±89.999999, "
           "±89.9999999999, ±90, uniform}; the exact form's branch point (lat ±0, lon − lon0 = 90(1−e) ± 0..4 ulp), the equatorial segment beyond it up to "
@@ -31,9 +31,11 @@ PROPS["C06"] = dict(
                 "independent evaluation of the Gauss–Krüger mapping (quadrature of M'(w) = a cos φ/√(1 − e² sin² φ) along a path in the complex isometric "
                 "plane, φ(w) by complex Newton continuation, 80-bit arithmetic) for x, y, γ = −arg M', k = k0|M'|/(N cos φ); series vs exact; "
                 "Reverse∘Forward and Forward∘Reverse; central meridian (x = 0, γ = 0, y = k0 × meridian arc by quadrature, k = k0); equator; poles; parities, "
-                "periodicity, far-side reflection, lon0 shift; conformality by finite differences; extendp round trip. Partial: that alp itself is the "
-                "Krüger series of the ellipsoid (as opposed to being the inverse of bet) and the nanometre error bounds of the floating-point code are "
-                "not theorems (covered by the oracle); the exact form's zeta/sigma Newton inversions are kernels."),
+                "periodicity, far-side reflection, lon0 shift; conformality by finite differences; extendp round trip. (4) Cross-table certificates "
+                "alp_is_aux / bet_is_aux: alpcoeff and −betcoeff are, as rational series in n, the μ←χ and χ←μ tables of AuxLatitude.cpp (extracted "
+                "independently), which the C15 obligations chi_ode, mu_beta_table, aux_revert tie to the defining relations of the conformal and "
+                "rectifying latitudes. Partial: the nanometre error bounds of the floating-point code are not theorems (covered by the oracle); the "
+                "exact form's zeta/sigma Newton inversions are kernels."),
     level_note=("b1coeff/alpcoeff/betcoeff and the series order regenerated from TransverseMercator.cpp each run; hand-written wrapper model over the exact F64 "
                 "softfloat and polymorphic (RealLike) model of the series kernel; kernel values come from a copy of the implementation's object with unit "
                 "scale constants; oracle in x87 long double"),
